@@ -14,3 +14,4 @@ open RV.C13
 #print axioms view_read_frame
 #print axioms aggregate_reads
 #print axioms bindings_idempotent
+#print axioms read_frame_attributes
